@@ -38,7 +38,7 @@ from vf import lib_C01_states as L
 
 ID = "C01"
 LEVEL = "exploration"
-BUDGET_S = {"quick": 32.0, "thorough": 140.0}
+BUDGET_S = {"quick": 27.0, "thorough": 140.0}
 RULE = ("a tree program = 1-3-d dataset (stored/int/categorical/derived/linked/pixel/world attributes, NaN/inf values) "
         "+ 3-8 elementary selections of random kinds + a random expression tree (depth <= 4 quick, <= 6 thorough) over "
         "and/or/xor/not built through state operators, composite classes, MultiOrState, combine_multiple, Subset-level "
@@ -47,9 +47,21 @@ RULE = ("a tree program = 1-3-d dataset (stored/int/categorical/derived/linked/p
         "operand after combining); systematic blocks additionally build every operator over every ordered pair of leaf "
         "kinds; an edit program = 4-12 steps of mode changes, edit-subset choices and EditSubsetMode.update calls. A "
         "tree program is non-trivial when its depth is >= 2, it uses >= 2 leaf kinds and the expected root mask is not "
-        "constant; an edit program when it ends with a non-constant group mask after >= 2 combining updates. distinct = "
+        "constant; an edit program when it ends with a non-constant group mask after >= 2 combining updates. Widening "
+        "round: attributes of many dtypes / memory layouts / magnitudes (1e-10 .. 1.6e9) incl. a stride-0 and a dask-backed "
+        "column; 18 % of the leaves take falsy / extreme / unusual-type parameters; tree flavours near_equal (bounds agreeing to "
+        "1e-9), aligned (evaluated on a pixel-aligned, axis-permuted dataset), joined (parts defined on a key-joined table), "
+        "large (>= 100 rows), zero_size; identity nodes (copy, paste, state_as_mask); views with negative integers, backward "
+        "slices, negative / 2-d index arrays, numpy integers; fault steps; a tiny chunk limit for a fifth of the programs; "
+        "pressure cases (thousands of short-lived selections on one dataset); edit programs with groups created / removed in "
+        "the middle, datasets re-appended, paste, repeated and failing updates and a listener reading masks from inside the "
+        "change message. distinct = "
         "distinct (shape, coordinate kind, tree with leaf kinds substituted) / (shape, mode sequence) fingerprints.")
 ASSUMPTIONS = ["numpy elementwise &, |, ^, ~ on boolean arrays are the specification of the Boolean operations",
+               "the truth values of a part's answer are its membership mask (a part answering with 0/1 numbers of the "
+               "right shape is still a part; only a wrongly shaped answer excludes a comparison)",
+               "throw-away inequalities / ranges of the pressure cases: op(values, bound) by numpy is their definition",
+               "the chunk size of glue's chunked code paths is internal: shrinking it must not change any mask",
                "the mask of an elementary selection evaluated once on a freshly built object is taken as that "
                "selection's membership mask (leaf semantics are C04/C08/C09's business)",
                "the instance attribute 'parent' that the edit modes attach to the incoming state is not a defining "
@@ -348,13 +360,14 @@ class LeafOracle(object):
         return "ok", {k: m for k, (st, m) in out.items()}
 
 
-def nonbool_diag(oracle, W, descs, needed):
+def nonbool_diag(oracle, W, descs, needed, exc=None):
     """Names the mechanism when a part of the expression answers with a non-boolean array (the Boolean operators of
     numpy are not defined on floats, and ~ on 0/1 integers is not a complement)."""
     hit = sorted(k for k in needed if k in oracle.nonbool)
-    if not hit:
-        if any(k in oracle.lazy for k in needed):
-            return {"explained_by": "part_answers_with_a_dask_array"}
+    lazy = any(k in oracle.lazy for k in needed)
+    if lazy and (not hit or isinstance(exc, NotImplementedError)):
+        return {"explained_by": "part_answers_with_a_dask_array"}
+    if not hit or isinstance(exc, NotImplementedError):
         return None
     return {"explained_by": "part_answers_with_a_non_boolean_array",
             "leaf_classes": sorted(set(type(L.build_leaf(W, descs[k])).__name__ for k in hit)),
@@ -425,9 +438,13 @@ class TreeRun(object):
             ctx.count("expr_with_incompatible_leaf:" + ("raised_IncompatibleAttribute" if isinstance(
                 exc, IncompatibleAttribute) else ("returned_mask" if exc is None else "raised_other")))
             if exc is not None and not isinstance(exc, IncompatibleAttribute):
-                ctx.violation({"kind": "exception", "exc": type(exc).__name__, "phase": phase, "node_op": node_op,
-                               "where": glue_frame(exc), "with_incompatible_leaf": True},
-                              self.witness({"view": common.describe_view(view), "error": repr(exc)[:300]}))
+                sig = {"kind": "exception", "exc": type(exc).__name__, "phase": phase, "node_op": node_op,
+                       "where": glue_frame(exc), "with_incompatible_leaf": True}
+                nb = nonbool_diag(self.oracle, W, self.descs, needed, exc)
+                if nb is not None and isinstance(exc, (TypeError, NotImplementedError)):
+                    sig = {"kind": "exception", "exc": type(exc).__name__}      # a known mechanism struck first
+                    sig.update(nb)
+                ctx.violation(sig, self.witness({"view": common.describe_view(view), "error": repr(exc)[:300]}))
             return None
         if st == "exc":
             ctx.count("excluded:leaf_fails_under_view:" + vkind)
@@ -463,7 +480,7 @@ class TreeRun(object):
             if repeat:
                 ctx.count("composite_reevaluated_through_same_object")
         sig = None
-        nb = nonbool_diag(self.oracle, W, self.descs, needed)
+        nb = nonbool_diag(self.oracle, W, self.descs, needed, exc)
         if exc is not None:
             sig = {"kind": "exception", "exc": type(exc).__name__, "phase": phase, "node_op": node_op,
                    "where": glue_frame(exc), "view_kind": vkind}
@@ -523,7 +540,7 @@ class TreeRun(object):
                 return
             sig = {"kind": "exception_while_combining", "exc": type(e).__name__, "where": glue_frame(e),
                    "root_op": self.tree[0]}
-            nb = nonbool_diag(self.oracle, W, self.descs, used)
+            nb = nonbool_diag(self.oracle, W, self.descs, used, e)
             if nb is not None and isinstance(e, (TypeError, NotImplementedError)):
                 sig = {"kind": "exception", "exc": type(e).__name__}
                 sig.update(nb)
@@ -810,13 +827,13 @@ def run_edit_program(ctx, rng, max_steps):
         except Exception:
             ctx.count("excluded:leaf_masks_do_not_combine_under_view:" + vkind)
             return
-        nb = nonbool_diag(oracle, W, descs, sorted(set(tree_leaves(tree)))) if tree[0] != "leaf" else None
         try:
             got = getter(view)
         except Exception as e:
             sig = {"kind": "exception", "exc": type(e).__name__, "phase": phase, "where": glue_frame(e),
                    "view_kind": vkind}
             sig.update(extra)
+            nb = nonbool_diag(oracle, W, descs, sorted(set(tree_leaves(tree))), e) if tree[0] != "leaf" else None
             if nb is not None and isinstance(e, (TypeError, NotImplementedError)):
                 sig = {"kind": "exception", "exc": type(e).__name__}
                 sig.update(nb)
